@@ -1,7 +1,7 @@
 import re
 import typing
 from collections import deque
-from decimal import Decimal
+from decimal import Decimal, localcontext
 from enum import Enum, EnumMeta
 from functools import partial
 from typing import (Any, AsyncGenerator, Callable, Dict, Generator, List,
@@ -878,7 +878,10 @@ class Constraints:
         if isinstance(value, Decimal):
             # if current decimal is Decimal('1.3') and decimal places is 2
             # we will make it Decimal('1.30') by using round
-            return round(value, d)
+            with localcontext() as ctx:
+                # completing the decimal places must not fail for numbers wider than the context precision
+                ctx.prec = max(ctx.prec, digits + d)
+                return round(value, d)
         return value
 
     @classmethod
